@@ -45,9 +45,7 @@ Print Assumptions C20_digest_grammar.
 
 Example C20_repository_grammar_examples :
   RepoName (b "a__b/c--d.e") /\ ~ RepoName (b "a___b") /\ ~ RepoName (b "a-_b") /\ ~ RepoName (b "a//b") /\ ~ RepoName (b "Org/app").
-Proof.
-  repeat split; try (rewrite <- repository_grammar; vm_compute; (reflexivity || discriminate)).
-Qed.
+Proof. exact repository_grammar_examples. Qed.
 
 (* a reference whose digest algorithm is not linked is not a digest reference at all: with
    only sha256 linked a sha512 reference is rejected, with everything linked it is accepted *)
@@ -99,10 +97,7 @@ Theorem C20_repo_rejects_other_paths :
     repo_parse avail valid_registry breg brepo s = Some r -> contains c_slash s = true ->
     (parse avail valid_registry s = Some r /\ r_registry r = breg /\ r_repository r = brepo) /\
     exists c t, s = breg ++ [c_slash] ++ brepo ++ c :: t /\ (c = c_colon \/ c = c_at).
-Proof.
-  exact (fun av vr breg brepo s r H Hs =>
-           conj (repo_parse_path_is_base av vr breg brepo s r H Hs) (repo_parse_path_prefix av vr breg brepo s r H Hs)).
-Qed.
+Proof. exact repo_rejects_other_paths. Qed.
 Print Assumptions C20_repo_rejects_other_paths.
 
 (* the code before the fix (model repo_parse_prefix) violated it *)
@@ -168,11 +163,7 @@ Theorem C20_url_exact_unconstrained_registry_refuted :
     wf_ref avail valid_registry r /\ r_reference r <> [] /\
     url_split (url_manifest false r)
     = Some (mkParts (b "https") (b "h") [] (Some (b "x")) (Some (b "y/v2/a/manifests/t"))).
-Proof.
-  exists (fun _ => true), (fun _ => true), (mkRef (b "h?x#y") (b "a") (b "t")).
-  unfold wf_ref, ok_registry. repeat split; try (vm_compute; reflexivity); try discriminate.
-  right. left. vm_compute. reflexivity.
-Qed.
+Proof. exact url_exact_unconstrained_registry_refuted. Qed.
 Print Assumptions C20_url_exact_unconstrained_registry_refuted.
 
 Example C20_url_exact_nonvacuous :
